@@ -45,6 +45,7 @@ type Contract struct {
 	Params     []SParam // for abstract contracts / trusted specs: explicit parameter names
 	Results    []SParam
 	Assigns    []AssignClause
+	GhostSets  []GhostSet
 	Lemma      bool
 	Fresh      []string // result names that are freshly allocated
 	NoPanic    bool     // trusted: function does not panic (default for trusted)
@@ -60,6 +61,18 @@ type AssignClause struct {
 	Src             string
 	File            string
 	Line            int
+}
+
+// GhostSet: `ghostset G(args) := expr` - ghost assignment performed when the
+// function returns (ghost state is a function of the program state; only this
+// function's returns update that location). For callers it is a modifies of
+// G(args) plus the postcondition G(args) == expr.
+type GhostSet struct {
+	Target *SCall
+	Val    SExpr
+	Src    string
+	File   string
+	Line   int
 }
 
 type GhostDecl struct {
@@ -286,6 +299,11 @@ func (cs *Contracts) loadFile(path, pkgPath, pkgName string) error {
 					}
 					continue
 				}
+				if strings.HasPrefix(part, "pkg(") || strings.HasPrefix(part, "elems(") || strings.HasPrefix(part, "cells(") {
+					// whole-heap items: pkg(name) = every heap of that package's types; elems(T) = every []T/[N]T element
+					cur.Modifies = append(cur.Modifies, Clause{Src: part, File: path, Line: ln})
+					continue
+				}
 				src := part
 				star := false
 				if strings.HasSuffix(part, "[*]") {
@@ -332,6 +350,27 @@ func (cs *Contracts) loadFile(path, pkgPath, pkgName string) error {
 			dc.Src = m[1] + "[*]"
 			dc.File = "assigns"
 			cur.Modifies = append(cur.Modifies, dc)
+		case "ghostset":
+			i := strings.Index(rest, " := ")
+			if i < 0 {
+				return fmt.Errorf("%s:%d: ghostset G(args) := EXPR", path, ln)
+			}
+			te, err := parseSpecExpr(rest[:i])
+			if err != nil {
+				return fmt.Errorf("%s:%d: %v", path, ln, err)
+			}
+			tc, ok := te.(*SCall)
+			if !ok {
+				return fmt.Errorf("%s:%d: ghostset target must be a ghost var application", path, ln)
+			}
+			ve, err := parseSpecExpr(rest[i+4:])
+			if err != nil {
+				return fmt.Errorf("%s:%d: %v", path, ln, err)
+			}
+			cur.GhostSets = append(cur.GhostSets, GhostSet{Target: tc, Val: ve, Src: rest, File: path, Line: ln})
+			cur.HasMod = true
+			cur.Modifies = append(cur.Modifies, Clause{Src: rest[:i], E: te, File: path, Line: ln})
+			cur.Ensures = append(cur.Ensures, Clause{Src: rest[:i] + " == " + rest[i+4:] + "   (ghostset)", E: &SBinary{"==", te, ve}, File: path, Line: ln})
 		case "loop":
 			n, err := strconv.Atoi(strings.TrimSuffix(rest, ":"))
 			if err != nil {
